@@ -61,6 +61,7 @@ UNITS = {
     ],
     "C12": [
         {"name": "C12_BIN", "test": "TestC12_BIN", "quick": 400, "thorough": 30000, "shards": 8, "bin": True},
+        {"name": "C12_CONC", "test": "TestC12_CONC", "quick": 24, "thorough": 600, "shards": 2},
     ],
     "C13": [
         {"name": "C13_BIN", "test": "TestC13_BIN", "quick": 300, "thorough": 15000, "shards": 6, "bin": True},
@@ -75,6 +76,7 @@ UNITS = {
         {"name": "C15_FN", "test": "TestC15_FN", "quick": 10000, "thorough": 600000, "shards": 8},
         {"name": "C15_BIN", "test": "TestC15_BIN", "quick": 150, "thorough": 6000, "shards": 2, "bin": True},
         {"name": "C15_EXPIRY", "test": "TestC15_EXPIRY", "quick": 4, "thorough": 32, "shards": 4},
+        {"name": "C15_CONC", "test": "TestC15_CONC", "quick": 24, "thorough": 600, "shards": 2},
         {"name": "C15_FUZZ", "test": "FuzzUserToken", "quick": 0, "thorough": 0, "shards": 1, "fuzz": True, "fuzztime_thorough": "120s", "exclusive": True},
     ],
     "C16": [
